@@ -17,6 +17,13 @@ class NetMask(Resource):
 
     maximum: int  # Set by make_netmask() - 32 for IPv4, 128 for IPv6
 
+    def __new__(cls, *args: int) -> NetMask:
+        # Resource.__new__ hands out one shared instance per value, and make_netmask() then writes
+        # the family's `maximum` on it: an IPv6 /32 anywhere (a static route) turned the /32 of
+        # every IPv4 address into a range of 2**96 addresses - the neighbor it belonged to was
+        # refused as "ip ranges ... with passive neighbors". A netmask carries its own family.
+        return int.__new__(cls, *args)
+
     def size(self) -> int:
         return int(pow(2, self.maximum - int(self)))
 
